@@ -424,6 +424,13 @@ func (Area) Gen(r *rand.Rand, tier string, emit func(string)) {
 	emit("hfile " + hexFiles([]string{"a", "b"}, [][]byte{{1, 2}, {3}}) + " " + hexFiles([]string{"b", "a"}, [][]byte{{3}, {1, 2}}))
 	emit("hfile " + hexFiles([]string{"a"}, [][]byte{{}}) + " -")
 
+	// the real ReflectionRouter: aggregateWatcher over the real router watchers, Remove at four points
+	genRR(r, tier, emit)
+	// the real sync.OnceFunc under n concurrent callers
+	for _, n := range []int{0, 1, 2, 3, 8, 32} {
+		emit(fmt.Sprintf("once %d", n))
+	}
+
 	amb := baseContract(3)
 	amb2 := variant(r, amb, 5)
 	for _, os := range []bool{true, false} {
@@ -558,6 +565,19 @@ func (Area) Gen(r *rand.Rand, tier string, emit func(string)) {
 		emitTick(emit, cs, []gplan{sp(0, -1), sp(1, -1), sp(2, -1)}, 1000)
 		// an interval below the floor is raised to 1 s; ResolveNow still wakes the poller at once
 		emitTick(emit, cs, []gplan{sp(0, 3), sp(2, -1), sp(0, -1)}, 1)
+		// Close during the sleep: served at once, the run does not wait for the interval (no timer poll at all)
+		{
+			cl := sp(0, -1)
+			cl.closeAt = 'D'
+			emitTick(emit, cs, []gplan{cl}, 1000)
+			// Close during a timer-started poll (point B: inside resolve), and at its select entry (C)
+			clB := sp(2, -1)
+			clB.closeAt = 'B'
+			emitTick(emit, cs, []gplan{sp(0, -1), clB}, 1000)
+			clC := sp(2, -1)
+			clC.closeAt = 'C'
+			emitTick(emit, cs, []gplan{sp(0, -1), clC}, 1000)
+		}
 		if tier == "thorough" {
 			// ResolveNow during a poll and the timer, a failing poll retried by the timer, Close while the timer runs
 			fail := sp(0, -1)
